@@ -37,6 +37,16 @@ operation at the same place answered differently, or `no-touch@<function>`; `P` 
                                     argument or the input of `default`; for falsy also
                                     truthiness and equality tests
 
+  P-non-liquid-error                an exception that is not a LiquidError escaped under
+                                    policy P (default: a missing variable "behaves as
+                                    nil/empty", it must not crash the render; falsy/strict:
+                                    the failure must be an UndefinedError); key
+                                    `<Type>@<innermost liquid2 function>`
+  default-missing-raises-where-nil-renders   the default policy fails with a LiquidError
+                                    when top-level variables are absent although the same
+                                    template renders both with them set to nil and to ''
+                                    ("a missing variable behaves as nil/empty")
+
   from the documentation of the undefined types (what "uses" means), reported under
   their own keys so they can be told apart
   P-raises-in-default-filter        UndefinedError came from inside the `default` filter
@@ -104,6 +114,14 @@ RULE = (
     "ternary, if, liquid tag, computed index, array literal) at nesting depth 0, 1 and 2 "
     "(if/for/with/unless/case/macro/render/include wrappers), complete by construction, "
     "sync and async; "
+    "(g) 31 forms that iterate / index / measure arrays and hashes x 9 data shapes (tuple, "
+    "range, abc.Sequence drop, UserList; abc.Mapping drop, dict subclass) sync and async, "
+    "every template-local program once more in a rotating shape and one reshaped variant "
+    "of every seeded complete program; (h) 32 forms using a variable as key / index at "
+    "depth >= 2, filter argument, range bound, loop limit / offset, cycle member, case / "
+    "when value x deletion of only that inner variable (110 programs, sync and async); "
+    "(i) `empty` / `blank` as filter and keyword arguments (ordinary, absent variables "
+    "there); "
     "sync and async; each case = one policy triple (Undefined, StrictUndefined, "
     "FalsyStrictUndefined). distinct = hash(source, data, mode); non-trivial = at least "
     "one variable deleted or a strict policy raised UndefinedError."
